@@ -44,7 +44,7 @@ PROPS = {
     ),
     "C03": P(
         technique="Lean 4 refinement proof (bufio model ⊑ byte stream) + reader theorems + differential correspondence with an independent encoder",
-        level_text="Proof that the byte source the reader sees is a plain stream whatever the transport chunking, bufio size and read sizes (take/read/skip laws over the bufio model, all chunkings), and that unmasking is position-correct across reads; message level (read_message, abandon_then_next): from an idle reader a conformant message — any fragmentation incl. empty frames, any masking keys, pings/pongs between fragments, either role, any bufio size ≥ 125, any chunking — is announced with its type and read to exactly its payload with reads of any size, abandonment at any point leaves the next message intact; any number of consecutive messages are read as exactly that list, in order, each once (read_messages, by induction); compressed messages (read_compressed_message): what reaches the decompressor is exactly the concatenated payloads, and the same bytes are refused when compression was not negotiated; JoinMessages (join_message, join_two_messages): payload ++ terminator per message for reads of any size. Tie: conformant streams from an independent Go encoder (all length classes, extreme keys, empty fragments, controls anywhere, deflate at several levels) fed through scripted transports with 6 chunkings and read with random programs (ReadMessage, NextReader+reads of 13 sizes, abandon, stale readers) on the real package and the model; every returned byte count compared.",
+        level_text="Proof that the byte source the reader sees is a plain stream whatever the transport chunking, bufio size and read sizes (take/read/skip laws over the bufio model, all chunkings), and that unmasking is position-correct across reads; message level (read_message, abandon_then_next): from an idle reader a conformant message — any fragmentation incl. empty frames, any masking keys, pings/pongs between fragments, either role, any bufio size ≥ 125, any chunking — is announced with its type and read to exactly its payload with reads of any size, abandonment at any point leaves the next message intact; any number of consecutive messages are read as exactly that list, in order, each once (read_messages, by induction); the request size may change from one Read to the next (read_message_mixed), in particular along whatever capacities the allocator picks for io.ReadAll / ReadMessage (read_message_any_caps); compressed messages (read_compressed_message): what reaches the decompressor is exactly the concatenated payloads, and the same bytes are refused when compression was not negotiated; JoinMessages (join_message, join_two_messages): payload ++ terminator per message for reads of any size. Tie: conformant streams from an independent Go encoder (all length classes, extreme keys, empty fragments, controls anywhere, deflate at several levels) fed through scripted transports with 6 chunkings and read with random programs (ReadMessage, NextReader+reads of 13 sizes, abandon, stale readers) on the real package and the model; every returned byte count compared.",
         level_note="compress/flate's inflate and its read sizes are environment (after a compressed read scenarios use whole-message reads); ReadJSON is ReadMessage + encoding/json (environment).",
         lean=["WS.Props.C03"],
         streams=[("rconf", 800, 16000), ("join", 200, 4000), ("zcut", 1200, 20000)],
@@ -60,7 +60,7 @@ PROPS = {
     ),
     "C05": P(
         technique="Lean 4 proof over the bufio model (all cuts, all chunkings) + fault enumeration by differential correspondence",
-        level_text="Proof at the message level (cut_never_complete): the transport ends — EOF, error or timeout, alone or together with the last bytes — at ANY byte offset strictly inside a conformant message of any fragmentation with interleaved controls, for any chunking, buffer size and read size: the message is never reported complete; NextReader fails or the message reader fails with a non-EOF error after delivering only a prefix of the payload (on reachable states; the 1000th-call panic is explicit otherwise); a message that did arrive whole is reported complete and byte-identical. Proof at the source level: a header or skipped remainder that did not fully arrive is an error (EOF mapped to 1006), never a short result; the terminal error repeats. Tie/fault enumeration: random streams cut at random and boundary offsets with EOF / error / timeout, error alone or together with the last bytes, all chunkings, explicit read sizes; model predicts every result incl. bufio pass-through effects; oracle: a message reported complete lies wholly before the cut and is byte-identical; errors are permanent.",
+        level_text="Proof at the message level (cut_never_complete): the transport ends — EOF, error or timeout, alone or together with the last bytes — at ANY byte offset strictly inside a conformant message of any fragmentation with interleaved controls, for any chunking, buffer size and read size: the message is never reported complete; NextReader fails or the message reader fails with a non-EOF error after delivering only a prefix of the payload (on reachable states; the 1000th-call panic is explicit otherwise); a message that did arrive whole is reported complete and byte-identical; the same for COMPRESSED messages through the model of flateReadWrapper (compressed_cut_never_complete: for every behaviour of compress/flate — read requests of any sizes, the end of the deflate stream reported however early — and every drain size, a compressed message whose last frame has not arrived is not reported complete; finding F10 as a theorem; compressed_whole_complete for the converse). Proof at the source level: a header or skipped remainder that did not fully arrive is an error (EOF mapped to 1006), never a short result; the terminal error repeats. Tie/fault enumeration: random streams cut at random and boundary offsets with EOF / error / timeout, error alone or together with the last bytes, all chunkings, explicit read sizes; model predicts every result incl. bufio pass-through effects; oracle: a message reported complete lies wholly before the cut and is byte-identical; errors are permanent; zcut: compressed messages of every deflate shape, cut anywhere, with the decompressor's read requests observed through a tap and replayed by the model (zr lines).",
         level_note="Finding F1 (EOF together with the last bytes of a non-final frame made a truncated message look complete) was repaired (fix: f91fac9); the theorem is about the repaired reader and the rcut stream is its regression sentinel. Theorems cover uncompressed messages; compressed messages of every deflate shape (sync-flushed, several blocks, BFINAL) cut at any offset by every fault kind are judged by the independent oracle of stream zcut with the real compress/flate (no model), which found F10 (repaired, fix: 9fddae9).",
         lean=["WS.Props.C05"],
         streams=[("rcut", 800, 20000), ("zcut", 600, 20000)],
